@@ -186,10 +186,12 @@ def scen_async_nodes(cfg):
         seqs = [int(s.seq) for s in calls]
         states = [s.state for s in calls]
         exp_states = [("state", "n", "init")] + [("state", "n", k) for k in range(K - 1)]
+        rec_seqs = [r.seq for r in node._record_steps]
         return {
             "every fired tick executes the step function exactly once, with that tick's sequence number": all(o["fired"] for o in obs) and seqs == list(range(K)),
             "the state handed to tick k is the state returned by tick k-1 (no hidden extra execution)": states == exp_states,
             "after the step the node's sequence number is tick + 1": int(node._step_state.seq) == K,
+            "the recorded tick equals the sequence number the step function saw": rec_seqs == seqs,
             "the output sent to consumers is the output of that single execution": [a[0] for t_, n_, a in rec.tasks if n_ == "push_input"] == [("output", "n", k) for k in range(K)],
             "twin:ticks fired": len(calls) >= 1,
         }
@@ -272,8 +274,9 @@ def async_configs(tier):
     for sched in ("frequency", "phase"):
         for nb, nnb in ((0, 0), (1, 0), (1, 1)):
             for rs in (None, dict(rng=True, inputs=True, state=True, output=True)):
+                # init_seq: the graph state handed to reset() may carry any sequence numbers (e.g. the final state of a previous episode)
                 out.append(dict(scen="nodes", rate=10, scheduling=sched, advance=False, n_blocking=nb, n_nonblocking=nnb, nticks=2 if tier == "quick" else 3,
-                                record_setting=rs, groups=True))
+                                record_setting=rs, groups=True, init_seq=0 if rs is None else 7))
     out += [dict(scen="supervisor", override=False), dict(scen="supervisor", override=True)]
     return out
 
